@@ -32,7 +32,7 @@ def encode_reply(code, parts):
             for ln in lines:
                 out.append(dot_stuff(ln))
             out.append('.')
-    return b''.join(x.encode('ascii') + CRLF for x in out)
+    return b''.join(x.encode('utf-8') + CRLF for x in out)      # (8-bit text is legal in replies: UTF-8 ContactInfo etc.)
 
 
 def logical_lines(parts):
